@@ -138,6 +138,20 @@ def build_frugal():
     return rc == 0, out + err
 
 
+def build_gen():
+    """Generated-code harness: needs the compiler binary; `.build/gen` is a wrapper around harness/gen/gen.py
+    (which compiles random IDL with .build/frugal, builds the emitted Go with the reflection runner in a
+    scratch module and runs it)."""
+    ok, out = build_frugal()
+    if not ok: return ok, out
+    path = os.path.join(BUILD, "gen")
+    tmp = path + ".%d" % os.getpid()
+    open(tmp, "w").write("#!/bin/sh\nexec python3 %s \"$@\"\n" % os.path.join(VERIF, "harness", "gen", "gen.py"))
+    os.chmod(tmp, 0o755)
+    os.replace(tmp, path)
+    return True, ""
+
+
 def generate_params():
     """Regenerate lean/FV/Generated/Params.lean from /repo's working tree (go/ast extractor)."""
     os.makedirs(BUILD, exist_ok=True)
